@@ -18,6 +18,12 @@ macro_rules! probe_all {
             use super::*;
             $(pub static $n: $t = $e;)*
         }
+        /// reference-valued constants (`const K: &Keyboard<..> = &Keyboard::new(..)`): rejected by rustc as soon as a
+        /// type acquires interior mutability, even if it stays Send + Sync
+        pub mod const_refs {
+            use super::*;
+            $(pub const $n: &$t = &$e;)*
+        }
         pub const NAMES: &[&str] = &[$(stringify!($n)),*];
         pub const SEND_SYNC_ASSERTED: usize = {
             let mut n = 0;
